@@ -59,6 +59,7 @@ PROFILES = {
     'ADV': prof(adv=0.5, mode_b=0.02, epilogue=False, misuse=0.05, events=(30, 200)),
     'MISUSE': prof(misuse=0.4, small_closed=0.6, fsm_misuse=1.0),
     'CLOSE': prof(goaway=0.05, misuse=0.3, fsm_misuse=1.0, epilogue=False),
+    'LONG': prof(long=True, epilogue=False, misuse=0.0, events=(4000, 20000), small_closed=0.7, burst=1.0, race_start=0.0),
 }
 
 
@@ -418,9 +419,14 @@ class Gen:
         w = self.w
         if self.upgrade:
             self._start_upgrade()
+            if self.upgrade_view_only:
+                return
         else:
             self.call('c', 'initiate_connection')
             self.call('s', 'initiate_connection')
+        if P.get('long'):
+            self.settle()
+            return self._run_long()
         if not self.race_start:
             self.settle()
             # initial non-default settings, then settle again
@@ -479,6 +485,67 @@ class Gen:
             return
         if P['epilogue']:
             self._epilogue()
+
+    # -- LONG profile: adversary churn against one real endpoint --------------
+    def _run_long(self):
+        from . import adversary
+        rng = self.rng
+        w = self.w
+        # servers see the richest churn (the stub opens streams); clients only get references
+        victim = 's' if rng.random() < 0.85 else 'c'
+        stub = w.peer(victim)
+        d = w.in_dir(victim)
+        ve = w.eps[victim]
+        vt = ve.trk
+        if rng.random() < 0.5 and not self.halted:
+            self.call(victim, 'update_settings', settings={C.S_MAX_HEADER_LIST_SIZE: rng.choice([4096, 65536]),
+                                                          C.S_MAX_CONCURRENT_STREAMS: rng.choice([10, 100])})
+            self.settle()
+        n = self.n_events
+        i = 0
+        w.pipes[d].tainted = True
+        while i < n and not self.halted:
+            i += 1
+            batch = 1       # one frame group at a time: each one is drawn from the victim's state after the previous one
+            raw = bytearray()
+            for _ in range(batch):
+                if rng.random() < 0.0002:
+                    ev = adversary.draw(self)       # the rare arbitrary / invalid frame
+                    if ev is not None and ev.get('ev') == 'inject':
+                        raw += ev['bytes']
+                    continue
+                for f in adversary.long_frames(self, vt, victim == 's', stub):
+                    raw += f.serialize()
+                i += 1
+            if raw:
+                self.ex({'ev': 'inject', 'dir': d, 'pos': len(w.pipes[d].backlog), 'bytes': bytes(raw)})
+                if self.halted:
+                    break
+                cap = rng.choice([0, 0, 1])
+                while w.pipes[d].backlog and not self.halted:
+                    self.deliver(d, 1 << 30, cap)
+            # the victim's automatic output goes nowhere interesting: drop it
+            if ve.outbox:
+                del ve.outbox[:]
+            r = rng.random()
+            if r < 0.05:
+                self.call(victim, rng.choice(['open_inbound_streams', 'open_outbound_streams']))
+            elif r < 0.08 and self.unacked[victim]:
+                sid, k = self.unacked[victim].pop()
+                self.call(victim, 'acknowledge_received_data', n=k, sid=sid)
+            elif r < 0.10 and victim == 's':
+                live = [st for st in vt.streams.values() if st.state in ('open', 'hcR') and not st.mine]
+                if live:
+                    st = rng.choice(live)
+                    if st.sent in (NONE, INFO):
+                        self.call(victim, 'send_headers', sid=st.sid, headers=[(':status', '200')], es=rng.random() < 0.7)
+                    else:
+                        self.call(victim, 'end_stream', sid=st.sid)
+            if vt.closed and rng.random() < 0.2:
+                break
+        if not self.halted:
+            self.call(victim, 'open_inbound_streams')
+            self.call(victim, 'open_outbound_streams')
 
     # -- valid calls -------------------------------------------------------
     def _weights(self, ep, trk):
@@ -1113,10 +1180,21 @@ class Gen:
         rng = self.rng
         w = self.w
         # the client's settings, installed the only way the API offers before an upgrade
+        self.upgrade_view_only = False
         if rng.random() < 0.7:
             d = {}
-            for k in rng.sample([C.S_ENABLE_PUSH, C.S_MAX_CONCURRENT_STREAMS, C.S_ENABLE_CONNECT_PROTOCOL], rng.randrange(0, 4)):
-                d[k] = rng.choice(SETTING_VALUES[k])
+            keys = [C.S_ENABLE_PUSH, C.S_MAX_CONCURRENT_STREAMS, C.S_ENABLE_CONNECT_PROTOCOL]
+            if rng.random() < self.P.get('upgrade_full_space', 0.0):
+                # whole valid space: only the settings view is judged, no continuation program
+                keys = list(SETTING_VALUES)
+                self.upgrade_view_only = True
+            for k in rng.sample(keys, rng.randrange(0, len(keys) + 1)):
+                vals = list(SETTING_VALUES[k])
+                if self.upgrade_view_only:
+                    vals += {C.S_INITIAL_WINDOW_SIZE: [2 ** 31 - 1], C.S_MAX_FRAME_SIZE: [2 ** 24 - 1],
+                             C.S_MAX_HEADER_LIST_SIZE: [0, 2 ** 32 - 1], C.S_HEADER_TABLE_SIZE: [2 ** 32 - 1],
+                             C.S_MAX_CONCURRENT_STREAMS: [2 ** 32 - 1]}.get(k, [])
+                d[k] = rng.choice(vals)
             if d:
                 self.call('c', 'set_local_settings', settings=d)
         s = self.call('c', 'initiate_upgrade_connection')
@@ -1127,6 +1205,12 @@ class Gen:
             raw = base64.urlsafe_b64decode(hdr)
             pairs = [(int.from_bytes(raw[i:i + 2], 'big'), int.from_bytes(raw[i + 2:i + 6], 'big')) for i in range(0, len(raw) - 5, 6)]
         self.call('s', 'initiate_upgrade_connection', settings_header=hdr, _pairs=pairs)
+        # what each side believes about the client's settings (public mappings)
+        self.call('c', 'local_settings')
+        self.call('s', 'remote_settings')
+        if rng.random() < 0.5:
+            self.call('c', 'get_next_available_stream_id')
+            self.call('s', 'get_next_available_stream_id')
 
     # -- epilogue probe (bounded liveness) -----------------------------------
     def _epilogue(self):
